@@ -188,7 +188,8 @@ pin_project! {
 enum DispatcherMessage {
     // a queued request and the context its response has to be encoded with
     Item(Request, EncodeCtx),
-    Upgrade(Request),
+    // a queued upgrade request and its context (the in-flight response keeps its own)
+    Upgrade(Request, EncodeCtx),
     Error(Response<()>),
 }
 
@@ -614,7 +615,10 @@ where
                     }
 
                     // return with upgrade request and poll it exclusively
-                    Some(DispatcherMessage::Upgrade(req)) => return Ok(PollResponse::Upgrade(req)),
+                    Some(DispatcherMessage::Upgrade(req, ctx)) => {
+                        this.codec.set_encode_ctx(ctx);
+                        return Ok(PollResponse::Upgrade(req));
+                    }
 
                     // all messages are dealt with
                     None => {
@@ -934,7 +938,13 @@ where
                                 // upgraded Request.
                                 MessageType::Stream if this.flow.upgrade.is_some() => {
                                     *this.payload_drainable = false;
-                                    this.messages.push_back(DispatcherMessage::Upgrade(req));
+                                    // responses that are still to be encoded (in flight or
+                                    // queued) must not inherit the upgrade request's context
+                                    // (`Connection: upgrade`, read-to-EOF stream framing)
+                                    let ctx = this.codec.encode_ctx();
+                                    this.codec.set_encode_ctx(in_flight_ctx);
+                                    this.messages
+                                        .push_back(DispatcherMessage::Upgrade(req, ctx));
                                     break;
                                 }
 
